@@ -12,7 +12,7 @@ import ast
 
 from . import AnalysisError
 from .compare import HASHABLE, type_names_of
-from .terms import is_param_rooted, C, CallT, Elem, Fresh, G, is_call, is_const, is_lit, string_leaves
+from .terms import is_param_rooted, C, CallT, Elem, Fresh, G, Sub, is_call, is_const, is_lit, string_leaves
 from .walker import CONTAINERS, JSON_TYPES, NUM, Exc, _ATTRS
 
 ED_PUB = "obj:cryptography.hazmat.primitives.asymmetric.ed25519.Ed25519PublicKey"
@@ -670,6 +670,29 @@ def apply_new(w, e, cls_qualname, args, kwargs, s):
         if len(args) > len(names):
             c.rz("TypeError", "too many arguments for %s" % short)
             return c.outs
+        stars = [v for n, v in kwargs if n == "**"]
+        if len(stars) == 1 and all(d is None for _n, d in fields):
+            # Record(a, **d) with a mapping the analysis cannot see into (yet): it succeeds exactly
+            # when d's keys are the remaining fields - then each field is d[name]
+            d_ = stars[0]
+            given = dict(vals)
+            for n, v in kwargs:
+                if n != "**":
+                    given[n] = v
+            rest = [n for n in names if n not in given]
+            if rest and all(n in names for n in given):
+                dt = c.types(d_)
+                if dt is None or not dt <= {"dict"}:
+                    c.rz("TypeError", "** of a value that may not be a mapping", [("nottype", d_, frozenset(["dict"]))])
+                if not c.s.holds(("keys", d_, frozenset(rest))):
+                    c.rz("TypeError", "** of a mapping whose keys are not exactly the remaining fields of %s" % short, [("notkeys", d_, frozenset(rest))])
+                s1 = c.s.copy()
+                s1.add(("keys", d_, frozenset(rest)), ("type", d_, frozenset(["dict"])))
+                for n in rest:
+                    given[n] = Sub(d_, C(n))
+                    s1.add(("has", d_, C(n)), ("ok", Sub(d_, C(n))))
+                c.ret(("nt", cls_qualname, tuple(given[n] for n in names)), state=s1)
+                return c.outs
         for n, v in kwargs:
             if n not in names or n in vals:
                 c.rz("TypeError", "unexpected or repeated field %s for %s" % (n, short))
